@@ -59,7 +59,7 @@ impl Qos {
             align: v["align"].as_u64().unwrap_or(8) as usize,
         }
     }
-    fn reset_event(&self, name: &str, seed: u64) -> Value {
+    pub fn reset_event(&self, name: &str, seed: u64) -> Value {
         json!({"k": "reset", "maxpubs": self.maxpubs, "maxsubs": self.maxsubs, "bufmax": self.bufmax,
                "hist": self.hist, "borrow": self.borrow, "loan": self.loan,
                "overflow": if self.overflow { 1 } else { 0 }, "strategy": self.strategy,
@@ -303,7 +303,7 @@ pub struct Summary {
 }
 
 impl Summary {
-    fn count(&mut self, ev: &Value) {
+    pub fn count(&mut self, ev: &Value) {
         let a = ev["a"].as_str().unwrap_or("?");
         let key = match ev.get("r").and_then(|r| r.as_str()) {
             Some(r) => format!("{a}:{r}"),
@@ -325,6 +325,7 @@ impl Summary {
 type ForeignSender<S> = <<S as Service>::Connection as ZeroCopyConnection>::Sender;
 
 pub struct World<S: Service, K: Kind> {
+    node: Option<Node<S>>,
     pubs: BTreeMap<u32, PubEnt<S, K>>,
     subs: BTreeMap<u32, SubEnt<S, K>>,
     factory: PsFactory<S, K::T, ()>,
@@ -381,6 +382,7 @@ const NESTED_OPS: [&str; 4] = ["recv", "drop_sample", "has", "update_sub"];
 impl<S: Service + 'static, K: Kind> World<S, K> {
     fn new(factory: PsFactory<S, K::T, ()>, q: &Qos, config: &Config) -> Self {
         World {
+            node: None,
             pubs: BTreeMap::new(),
             subs: BTreeMap::new(),
             factory,
@@ -395,6 +397,45 @@ impl<S: Service + 'static, K: Kind> World<S, K> {
             abandoned: 0,
             hook: Hook::new(),
         }
+    }
+
+    /// node + service + empty world (the node lives as long as the world)
+    pub fn create(config: &Config, name: &str, q: &Qos) -> Result<Self, String> {
+        let config = job_config(config, q);
+        let node = open_node::<S>(&config);
+        let sname = ServiceName::new(name).expect("service name");
+        let factory = K::create_service(&node, &sname, q)?;
+        let mut w = Self::new(factory, q, &config);
+        w.node = Some(node);
+        Ok(w)
+    }
+
+    /// one program action; every event carries the digest of what is held (taken after the step)
+    pub fn exec_recorded(&mut self, act: &Value) -> Vec<Value> {
+        let mut events = self.exec(act);
+        let n = events.len();
+        for (i, e) in events.iter_mut().enumerate() {
+            if e.get("bad").is_none() {
+                let bad = if i + 1 == n { self.bad() } else { Vec::new() };
+                e.as_object_mut().unwrap().insert("bad".into(), json!(bad));
+            } else if i + 1 == n {
+                e.as_object_mut().unwrap().insert("bad".into(), json!(self.bad()));
+            }
+        }
+        events
+    }
+
+    /// one program action without digest (concurrent phase: the other thread's objects are not touched)
+    pub fn exec_plain(&mut self, act: &Value) -> Vec<Value> {
+        let mut events = self.exec(act);
+        for e in events.iter_mut() {
+            e.as_object_mut().unwrap().insert("bad".into(), json!([]));
+        }
+        events
+    }
+
+    pub fn finish(self) {
+        self.teardown()
     }
 
     /// ids of held samples / loans whose bytes no longer equal their canary (or are not even mapped)
@@ -941,6 +982,7 @@ impl<S: Service + 'static, K: Kind> World<S, K> {
             drop(s);
         }
         self.foreign.clear();
+        drop(self.node.take());
     }
 }
 
@@ -1038,33 +1080,24 @@ pub fn run_job<S: Service + 'static, K: Kind>(
     };
     let mut world = World::<S, K>::new(factory, q, &config);
     let result = catch_unwind(AssertUnwindSafe(|| {
-        let emit = |world: &World<S, K>, events: Vec<Value>, tw: &mut TraceWriter, summary: &mut Summary| {
-            let n = events.len();
-            for (i, mut e) in events.into_iter().enumerate() {
-                // the digest of everything still held is taken after the step (= after its last event);
-                // calls made from inside a handler carry the digest taken right after them
-                if e.get("bad").is_none() {
-                    let bad = if i + 1 == n { world.bad() } else { Vec::new() };
-                    e.as_object_mut().unwrap().insert("bad".into(), json!(bad));
-                } else if i + 1 == n {
-                    e.as_object_mut().unwrap().insert("bad".into(), json!(world.bad()));
-                }
+        let emit = |events: Vec<Value>, tw: &mut TraceWriter, summary: &mut Summary| {
+            for e in events {
                 summary.count(&e);
                 tw.emit(&e);
             }
         };
         if let Some(prog) = job["program"].as_array() {
             for act in prog {
-                let events = world.exec(act);
-                emit(&world, events, tw, summary);
+                let events = world.exec_recorded(act);
+                emit(events, tw, summary);
             }
         } else {
             let steps = job["gen"]["steps"].as_u64().unwrap_or(100);
             let mut rng = Rng::new(seed);
             for _ in 0..steps {
                 let act = world.gen_action(&mut rng, faults);
-                let events = world.exec(&act);
-                emit(&world, events, tw, summary);
+                let events = world.exec_recorded(&act);
+                emit(events, tw, summary);
             }
         }
     }));
